@@ -17,8 +17,8 @@ import (
 	"verifharness/sched"
 	"verifharness/trace"
 
-	"github.com/aperturerobotics/util/routine"
 	ubackoff "github.com/aperturerobotics/util/backoff"
+	"github.com/aperturerobotics/util/routine"
 	cbackoff "github.com/cenkalti/backoff/v4"
 )
 
@@ -44,9 +44,9 @@ type rtScenario struct {
 	Retry      bool     `json:"retry"`
 	BoConf     string   `json:"boconf"`  // "": scripted backoff (WithBackoff); "const" | "expo": WithRetry(backoff.Backoff config meaning 10 ms, forever)
 	BigTick    bool     `json:"bigtick"` // the environment may once advance the clock by 20 minutes
-	Seq        bool     `json:"seq"`   // sequential histories: settle the library after every move (C14)
-	Burst      bool     `json:"burst"` // M2: clients run their whole programs freely in parallel, then exact quiescence
-	NCtx       int      `json:"nctx"`  // number of distinct root contexts
+	Seq        bool     `json:"seq"`     // sequential histories: settle the library after every move (C14)
+	Burst      bool     `json:"burst"`   // M2: clients run their whole programs freely in parallel, then exact quiescence
+	NCtx       int      `json:"nctx"`    // number of distinct root contexts
 	Ticks      int      `json:"ticks"`
 	RootCancel bool     `json:"rootcancel"` // the client may cancel root contexts it handed to SetContext
 	BoStop     int      `json:"bostop"`     // >0: the backoff gives up (returns Stop) from its n-th NextBackOff call on
